@@ -109,6 +109,7 @@ type dispDriver struct {
 	rnd   *rand.Rand
 	cfgS  *hx.Shard
 	dispS *hx.Shard
+	sessS *hx.Shard
 	n     int
 }
 
@@ -121,6 +122,7 @@ func driveDispatch(c *hx.Ctx) error {
 	d := &dispDriver{c: c, rt: rt, rnd: c.Rand("stubdispatch")}
 	d.cfgS = c.NewShard("cfg", dispImports, "cfg_case", "corr_cfg", "holds_cfg_case", 600)
 	d.dispS = c.NewShard("disp", dispImports, "disp_case", "corr_disp", "holds_disp_case", 500)
+	d.sessS = c.NewShard("sess", dispImports, "sess_case", "corr_sess", "holds_sess", 500)
 
 	byKey := map[string]pluginType{}
 	for _, pt := range pluginTypes {
@@ -169,6 +171,14 @@ func driveDispatch(c *hx.Ctx) error {
 				return err
 			}
 		}
+		// one stub object through several sessions
+		if mask != 0 {
+			for _, script := range d.restartVariants(mask) {
+				if err := d.restarts(pt, script); err != nil {
+					return err
+				}
+			}
+		}
 	}
 	c.Stats.Exhaustive = false
 	c.Stats.Rule = "stubdispatch: real stub.Stub values on generated Go plugin types (harness/cmd/h_stub/plugins_gen.go, written by gentypes: " +
@@ -182,7 +192,12 @@ func driveDispatch(c *hx.Ctx) error {
 		"event numbers no case exists for (0, 14, 99, and the four RPC-carried events) and messages with absent fields; pod, container and both " +
 		"resource sets carry distinct tokens, all 13 methods are scripted with distinct adjustment / update / error tokens; recorded: the methods " +
 		"that ran with the tokens they saw, and the reply or error the runtime end got. non-trivial cfg case: the hook returned a mask (clamping " +
-		"exercised); non-trivial disp case: a handler ran."
+		"exercised); non-trivial disp case: a handler ran. sess cases (restart stream): ONE stub.Stub object is started two or three times " +
+		"(Stop, or a rejected configuration, in between; a few deliveries in every configured session) with a different hook answer per session: " +
+		"subset A then 0; subset A then an implemented subset B disjoint from A; exact, A, 0; hook failure, 0, B; superset (rejected) then exact; " +
+		"A, A plus an unimplemented event (rejected), B; for single-handler types exact/0 and unimplemented/0; every session is compared with " +
+		"Model.Stub.sessions (the stub's mask threaded through the sessions, with 'Configure writes stub.events' read from the source) and judged " +
+		"as if it were a first session."
 	return nil
 }
 
